@@ -207,8 +207,8 @@ impl Scenario for C17 {
     }
     fn default_runs(tier: Tier) -> u64 {
         match tier {
-            Tier::Quick => 150_000,
-            Tier::Thorough => 20_000_000,
+            Tier::Quick => 2_000_000,
+            Tier::Thorough => 1_000_000_000,
         }
     }
     fn real_components() -> &'static [&'static str] {
@@ -723,8 +723,8 @@ impl Scenario for C19 {
     }
     fn default_runs(tier: Tier) -> u64 {
         match tier {
-            Tier::Quick => 250_000,
-            Tier::Thorough => 40_000_000,
+            Tier::Quick => 2_000_000,
+            Tier::Thorough => 1_000_000_000,
         }
     }
     fn real_components() -> &'static [&'static str] {
